@@ -27,7 +27,8 @@ def run(tier, replay):
     wd = lib.workdir(PID)
     lib.build("txn")
     quick = tier == "quick"
-    mc = lib.tlc("KTxnFaultMC", cfg="KTxnFaultMC", pid=PID, workers=2, timeout=600)
+    order, sfx, order_labels = txn_common.commit_order()
+    mc = lib.tlc("KTxnFaultMC", cfg="KTxnFaultMC" + sfx, pid=PID, workers=2, timeout=600)
     lib.tlc_must_pass(mc, "KTxnFaultMC: commit step list with Crash(k) and recovery")
     obs = f"{wd}/obs.ndjson"
     db = txn_common.dbroot(PID)
@@ -39,7 +40,7 @@ def run(tier, replay):
         lib.kverif("txn", ["c05", "--out", obs, "--db", db, "--kinds", "create,modify,delete,reap,acp,oauth2,domain,schema",
                            "--stride", 80], timeout=6000)
     txn_common.cleanup(db)
-    tv = lib.trace_validate("KTxnCrashTrace", obs, PID, timeout=1500)
+    tv = lib.trace_validate("KTxnCrashTrace", obs, PID, cfg="KTxnCrashTrace" + sfx, timeout=1500)
     lines = lib.read_lines(obs)
     recs = [json.loads(l) for l in lines]
     for r in recs:
@@ -67,6 +68,7 @@ def run(tier, replay):
     if not replay and (not any(r["rec"] == r["after"] for r in crashes) or not any(r["rec"] == r["before"] for r in crashes)):
         lib.tool_error("vacuous run: both recovery outcomes (before, after) must occur")
     R.coverage = {
+        "commit_order_of_tree_under_test": order,
         "evaluations": len(crashes),
         "distinct_nontrivial": len(classes),
         "rule": "one evaluation = one child process killed at one storage / crash point of one transaction, followed by reopen, "
